@@ -18,7 +18,8 @@ A crash is modelled by executing only a prefix of the operation sequence.
 -/
 namespace Mutagen.Model.Atomic
 
-abbrev Name := String
+/-- File names are character lists (so that prefix reasoning stays elementary). -/
+abbrev Name := List Char
 abbrev Content := List UInt8
 
 structure File where
@@ -144,9 +145,9 @@ def marshalAndSave (tmp path : Name) (data : Content) (f : Faults) : List Event 
 
 /-- The name `os.CreateTemp` produces: the atomic-write prefix followed by a
 decimal number chosen by the standard library. -/
-def tmpName (suffix : String) : Name := Mutagen.Facts.atomicWriteTemporaryNamePrefix ++ suffix
+def tmpName (suffix : List Char) : Name := Mutagen.Facts.atomicWriteTemporaryNamePrefix.toList ++ suffix
 
 /-- Names that scans ignore (`strings.HasPrefix(name, filesystem.TemporaryNamePrefix)`). -/
-def isTemporary (n : Name) : Bool := Mutagen.Facts.atomicTemporaryNamePrefix.isPrefixOf n
+def isTemporary (n : Name) : Bool := Mutagen.Facts.atomicTemporaryNamePrefix.toList.isPrefixOf n
 
 end Mutagen.Model.Atomic
